@@ -692,7 +692,18 @@ fn gen_base(rng: &mut Rng) -> (i64, i64) {
     (day, k)
 }
 
-fn special_values() -> Vec<f64> {
+fn special_values() -> &'static [f64] {
+    static V: std::sync::OnceLock<Vec<f64>> = std::sync::OnceLock::new();
+    V.get_or_init(special_values_compute)
+}
+
+/// the first and the last day chrono can represent (years -262143..=262142), as day numbers from
+/// the epoch 1899-12-30 — from the independent calendar, not from the model
+fn span_days() -> (i64, i64) {
+    (days_from_civil(-262143, 1, 1) - epoch_days(), days_from_civil(262142, 12, 31) - epoch_days())
+}
+
+fn special_values_compute() -> Vec<f64> {
     let (lo, hi) = span_ms();
     let mut v = vec![
         f64::NAN,
@@ -759,7 +770,62 @@ fn special_values() -> Vec<f64> {
     // around the f64 overflow of the product
     let x = f64::MAX / 86_400_000.0;
     v.extend([x, next_up(x), next_down(x), -x, -next_up(x), x * 0.999, x * 1.001]);
+    // the exact first / last representable day +- days (dense near the edge, then the distances at
+    // which a limit taken from another calendar span, a 365/366-day slip or the 1904 offset would
+    // show), whole and with fractions, as 1900 serials, shim-adjusted and 1904 serials
+    let (first, last) = span_days();
+    let mut dd: Vec<i64> = (-8..=8).collect();
+    for k in [30, 31, 364, 365, 366, 367, 400, 730, 731, 1461, 1462, 1463, 1464, 36524, 146097] {
+        dd.push(k);
+        dd.push(-k);
+    }
+    for edge in [first, last] {
+        for d in &dd {
+            for fr in [0.0, 2f64.powi(-11), 0.5, 0.999_999] {
+                let x = (edge + d) as f64 + fr;
+                v.extend([x, x - 1.0, x - 1462.0, x - 1463.0]);
+            }
+        }
+    }
+    // powers of two and the day counts of the calendar around them (integer pitfalls: i32 / u32 / i64
+    // casts of a day count, epoch offsets from 0001-01-01 or 1970-01-01)
+    for n in boundary_ints() {
+        v.push(n as f64);
+    }
     v
+}
+
+/// integers at which an integer day-count implementation could wrap: ±(2^k ± delta) for the
+/// widths of the machine integers and delta among small serials, the 1904 offset, the epoch's day
+/// numbers from 0001-01-01 / 1970-01-01 and the two ends of chrono's calendar
+fn boundary_ints() -> Vec<i64> {
+    let (first, last) = span_days();
+    let bases: [i128; 14] = [
+        1 << 15, 1 << 16, 1 << 24, 1 << 31, 1 << 32, 1 << 33, 1 << 52, 1 << 53, 1 << 62, 1 << 63, 100_000_000, last as i128, -(first as i128), 2_958_465,
+    ];
+    let mut deltas: Vec<i128> = vec![0, 1, 2, 3, 59, 60, 61, 62, 1461, 1462, 1463, 25_569, 693_593, 693_594, 693_595, 693_596, 719_163, 2_958_465];
+    for e in [last as i128, -(first as i128)] {
+        for k in -2..=2 {
+            deltas.push(e + k);
+            deltas.push(e + 693_594 + k);
+            deltas.push(e - 693_594 + k);
+        }
+    }
+    // a few points inside the two windows as well
+    deltas.extend([10_000_000, 50_000_000, 94_967_295, 95_000_000, 96_000_000]);
+    let mut out = vec![];
+    for b in bases {
+        for d in &deltas {
+            for x in [b + d, b - d] {
+                for y in [x, -x] {
+                    out.push(y.clamp(i64::MIN as i128, i64::MAX as i128) as i64);
+                }
+            }
+        }
+    }
+    out.sort_unstable();
+    out.dedup();
+    out
 }
 
 // ---------------------------------------------------------------------------------------------
@@ -895,10 +961,16 @@ fn check_cell(desc: &str, drv: &mut Driver, loc: &mut Local) {
     // desc: "cell <variant> <bits> [<td|dt> <1900|1904>]"   variant: float|int|rfloat|rint|dt|rdt|string|bool|empty|error
     let p: Vec<&str> = desc.split(' ').collect();
     let variant = p[1];
-    let v = if p.len() > 2 { unbits(p[2]) } else { 0.0 };
+    // the value: 16 hex digits = f64 bits (an Int cell then holds `v as i64`, saturating), or `i<decimal>` = an exact i64
+    let (v, as_int) = if p.len() > 2 && p[2].starts_with('i') {
+        let n: i64 = p[2][1..].parse().expect("i64");
+        (n as f64, n)
+    } else {
+        let v = if p.len() > 2 { unbits(p[2]) } else { 0.0 };
+        (v, v as i64)
+    };
     let ty = if p.len() > 3 && p[3] == "td" { ExcelDateTimeType::TimeDelta } else { ExcelDateTimeType::DateTime };
     let is_1904 = p.len() > 4 && p[4] == "1904";
-    let as_int = v as i64; // saturating
     let edt = ExcelDateTime::new(v, ty, is_1904);
     type Four = (Option<NaiveDateTime>, Option<NaiveDate>, Option<NaiveTime>, Option<chrono::Duration>);
     fn four<T: DataType>(d: &T) -> Four {
@@ -1060,12 +1132,20 @@ fn gen_cell(rng: &mut Rng) -> String {
     let variant = *rng.pick(&["float", "int", "rfloat", "rint", "dt", "dt", "rdt", "rdt", "string", "rstring", "bool", "empty", "error"]);
     let (day, k) = gen_base(rng);
     let v = match rng.below(12) {
-        0 => *rng.pick(&special_values()),
+        0 => *rng.pick(special_values()),
         1 | 2 => day as f64,
         _ => day as f64 + k as f64 / 86_400_000.0,
     };
     let ty = if rng.chance(1, 2) { "td" } else { "dt" };
     let sys = if rng.chance(1, 2) { "1904" } else { "1900" };
+    if rng.chance(1, 6) {
+        // an exact integer near a power of two, anywhere within a calendar span of it
+        let b: i128 = 1i128 << *rng.pick(&[31u32, 32, 32, 32, 33, 53, 63]);
+        let d = rng.below(200_000_000) as i128 - 100_000_000;
+        let n = (if rng.chance(1, 2) { b + d } else { -(b + d) }).clamp(i64::MIN as i128, i64::MAX as i128) as i64;
+        let variant = *rng.pick(&["int", "rint", "int", "rint", "float", "dt", "rdt"]);
+        return format!("cell {variant} i{n} {ty} {sys}");
+    }
     format!("cell {variant} {} {ty} {sys}", bits(v))
 }
 
@@ -1100,10 +1180,15 @@ struct HelperRow {
 fn check_helper(desc: &str, drv: &mut Driver, loc: &mut Local) {
     let p: Vec<&str> = desc.split(' ').collect();
     let variant = p[1];
-    let v = if p.len() > 2 { unbits(p[2]) } else { 0.0 };
+    let (v, as_int) = if p.len() > 2 && p[2].starts_with('i') {
+        let n: i64 = p[2][1..].parse().expect("i64");
+        (n as f64, n)
+    } else {
+        let v = if p.len() > 2 { unbits(p[2]) } else { 0.0 };
+        (v, v as i64)
+    };
     let ty = if p.len() > 3 && p[3] == "td" { ExcelDateTimeType::TimeDelta } else { ExcelDateTimeType::DateTime };
     let is_1904 = p.len() > 4 && p[4] == "1904";
-    let as_int = v as i64;
     let data = match variant {
         "float" => Data::Float(v),
         "int" => Data::Int(as_int),
@@ -1127,7 +1212,13 @@ fn check_helper(desc: &str, drv: &mut Driver, loc: &mut Local) {
     });
     loc.evaluations += 1;
     loc.count(&format!("helper.{variant}"));
-    let direct = (data.as_datetime(), data.as_date(), data.as_time(), data.as_duration());
+    let direct = match guarded(|| (data.as_datetime(), data.as_date(), data.as_time(), data.as_duration())) {
+        Ok(d) => d,
+        Err(pn) => {
+            loc.fail("impl_vs_spec", "panic:cell", desc, &format!("panic: {}", &pn[..pn.len().min(120)]), "", "no panic");
+            return;
+        }
+    };
     let fmt4 = |a: &Option<NaiveDateTime>, b: &Option<NaiveDate>, c: &Option<NaiveTime>, d: &Option<chrono::Duration>| {
         format!("dt={} date={} time={} dur={}", show_dt(a), opt(b, show_date), opt(c, show_time), show_dur(d))
     };
@@ -1138,7 +1229,7 @@ fn check_helper(desc: &str, drv: &mut Driver, loc: &mut Local) {
         "dt" => ("dt", v, is_1904),
         _ => ("other", 0.0, false),
     };
-    let _ = (kind, serial, sys);
+    let _ = sys;
     let model = drv.ask(&format!(
         "helper {}",
         match variant {
@@ -1155,6 +1246,9 @@ fn check_helper(desc: &str, drv: &mut Driver, loc: &mut Local) {
             let consistent = row.dt == row.dt_s.clone().ok() && row.date == row.date_s.clone().ok() && row.time == row.time_s.clone().ok() && row.dur == row.dur_s.clone().ok();
             let v = if !consistent {
                 Some("helper_or_string_differs_from_or_none".to_string())
+            } else if let Some(x) = if kind != "other" && !(variant == "dt" && is_1904) { judge_dt(serial, false, &Ok(row.dt)) } else { None } {
+                // independent of the direct conversion: the helper's own date-time against the calendar oracle
+                Some(format!("helper_{}", x.0))
             } else if s == expect {
                 None
             } else if (row.dt, row.date, row.time) == (direct.0, direct.1, direct.2) && direct.3.is_some() && row.dur.is_none() {
@@ -1186,7 +1280,7 @@ fn gen_helper(rng: &mut Rng) -> String {
     let variant = *rng.pick(&["float", "int", "dt", "dt", "dt", "string", "bool", "empty", "iso", "isodur"]);
     let (day, k) = gen_base(rng);
     let v = match rng.below(12) {
-        0 => *rng.pick(&special_values()),
+        0 => *rng.pick(special_values()),
         1 | 2 => day as f64,
         _ => day as f64 + k as f64 / 86_400_000.0,
     };
@@ -1344,12 +1438,30 @@ fn main() {
         }
         let sp = special_values();
         let mut pts = vec![];
-        for v in &sp {
+        for v in sp {
             pts.push((*v, false));
             pts.push((*v, true));
         }
         loc.add("special_points", pts.len() as u64);
-        check_points(&pts, &mut drv, &mut loc, true);
+        for chunk in pts.chunks(1024) {
+            check_points(chunk, &mut drv, &mut loc, true);
+        }
+        // the same values as cells of every numeric kind, through all four conversions
+        let mut ncell = 0u64;
+        for v in sp {
+            for (variant, ty, sys) in [("float", "dt", "1900"), ("rfloat", "dt", "1900"), ("dt", "dt", "1900"), ("dt", "td", "1904"), ("rdt", "td", "1900"), ("rdt", "dt", "1904")] {
+                check_cell(&format!("cell {variant} {} {ty} {sys}", bits(*v)), &mut drv, &mut loc);
+                ncell += 1;
+            }
+        }
+        for n in boundary_ints() {
+            for variant in ["int", "rint"] {
+                check_cell(&format!("cell {variant} i{n} dt 1900"), &mut drv, &mut loc);
+                ncell += 1;
+            }
+            check_helper(&format!("helper int i{n} dt 1900"), &mut drv, &mut loc);
+        }
+        loc.add("boundary_cells", ncell);
         loc.add("driver_requests", drv.requests);
         merge(&mut rep, loc, &mut all_hashes);
     }
